@@ -35,9 +35,9 @@ def run(c):
     r = c.validate("TrustChainTrace", "TrustChainTrace.cfg", trace, timeout=1800)
     _pki.judge_table(c, r, trace)
     if not c.replay:
-        _pki.need(r, "verified", "chain accepted by VerifyChain")
-        _pki.need(r, "handed_out", "chain handed out by the provider")
-        _pki.need(r, "handed_out_via_grace", "chain handed out through the predecessor TRC in grace")
+        _pki.need(c, r, "verified", "chain accepted by VerifyChain")
+        _pki.need(c, r, "handed_out", "chain handed out by the provider")
+        _pki.need(c, r, "handed_out_via_grace", "chain handed out through the predecessor TRC in grace")
     _pki.drift(c, r)
     n, distinct = vlib.count_distinct(
         trace, lambda e: [e["chain"], e["trc"], e["t"]] if e.get("ev") == "verify" and e["ok"] else
